@@ -62,7 +62,9 @@ pub fn exec_sched(sc: &Scenario) -> Report {
             ProgressDrawTarget::term_like(Box::new(term.clone()))
         };
         let mp = MultiProgress::with_draw_target(target);
-        let nworkers = sc.threads.len().saturating_sub(1).max(1);
+        // optional last thread: pokes a clone of the structural bar S while S is being removed
+        let poker = sc.c("poker") == 1 && sc.threads.len() >= 3;
+        let nworkers = sc.threads.len().saturating_sub(1 + poker as usize).max(1);
         let style = |tag: &str| {
             ProgressStyle::with_template(&format!("{tag}:{{pos}}:{{msg}}{{spinner}}"))
                 .unwrap()
@@ -117,6 +119,36 @@ pub fn exec_sched(sc: &Scenario) -> Report {
                 drop(pb);
             }));
         }
+        let t_shared: Arc<StdMutex<Option<ProgressBar>>> = Arc::new(StdMutex::new(None));
+        if poker {
+            let s_clone = s_bar.clone();
+            let ops = sc.threads.last().cloned().unwrap_or_default();
+            let mp2 = mp.clone();
+            let t2 = t_shared.clone();
+            let t_style = style("T");
+            handles.push(verif_simrt::thread::spawn_named("user-poker", move || {
+                for op in ops.iter() {
+                    match op.k.as_str() {
+                        "add_t" => {
+                            let already = t2.lock().unwrap().is_some();
+                            if !already {
+                                let pb = mp2.add(ProgressBar::with_draw_target(Some(5), ProgressDrawTarget::hidden()));
+                                pb.set_style(t_style.clone());
+                                pb.set_message("m0");
+                                pb.tick();
+                                *t2.lock().unwrap() = Some(pb);
+                            }
+                        }
+                        "s_update" => s_clone.update(|_| sched::advance(op.n0())),
+                        "s_tick" => s_clone.tick(),
+                        "s_set_message" => s_clone.set_message("m0"),
+                        "advance" => sched::advance(op.n0()),
+                        _ => {}
+                    }
+                }
+                drop(s_clone);
+            }));
+        }
         // structural thread = this one
         let mut t_bar: Option<ProgressBar> = None;
         for op in sc.threads.first().cloned().unwrap_or_default() {
@@ -133,7 +165,7 @@ pub fn exec_sched(sc: &Scenario) -> Report {
                     }
                 }
                 "add_t" => {
-                    if t_bar.is_none() {
+                    if t_bar.is_none() && !poker {
                         let pb = mp.add(ProgressBar::with_draw_target(Some(5), ProgressDrawTarget::hidden()));
                         pb.set_style(style("T"));
                         pb.set_message("m0");
@@ -197,6 +229,10 @@ pub fn exec_sched(sc: &Scenario) -> Report {
                     break 'frames;
                 }
                 prev_rank = Some(rk);
+                if tag == "T" && !row.starts_with("T:0:m0") {
+                    r.violate("C02.state_never_had", format!("frame #{fi}: bar T is shown as {row:?}, a state it never had"));
+                    break 'frames;
+                }
                 if tag == "S" && f.removed_s {
                     r.violate("C02.removed_bar_shown", format!("frame #{fi}: the removed bar S is painted after remove() returned: {:?}", f.rows));
                     break 'frames;
@@ -264,6 +300,7 @@ pub fn exec_sched(sc: &Scenario) -> Report {
         r.probe_n("frames_checked", frames.len() as u64);
         r.nontrivial = frames.len() >= 3 && nworkers >= 2;
         drop(t_bar);
+        drop(t_shared.lock().unwrap().take());
         drop(bars);
         drop(s_bar);
         drop(mp);
@@ -318,6 +355,19 @@ pub fn gen_sched(rng: &mut Rng, tier: Tier) -> Scenario {
                         Op::new("inc")
                     }
                 }
+            });
+        }
+        threads.push(ops);
+    }
+    if rng.chance(1, 3) {
+        sc.set("poker", 1);
+        let mut ops = vec![];
+        for _ in 0..rng.range(1, 5) {
+            ops.push(match rng.below(6) {
+                0 | 1 => Op::new("s_update").n(*rng.pick(&[0, 1_000_000, 30_000_000])),
+                2 => Op::new("s_tick"),
+                3 | 4 => Op::new("add_t"),
+                _ => Op::new("s_set_message"),
             });
         }
         threads.push(ops);
